@@ -87,7 +87,57 @@ def loop_var_ranges(fn, F):
                                     for nm in hir.pat_names(a["pat"]):
                                         out[nm] = (lo, hi - 1)
                                 break
+    if fn.get("kind") == "Closure":
+        for nm, r in closure_element_ranges(fn, F).items():
+            out.setdefault(nm, r)
     return out, sym
+
+
+# iterator adapters that hand each element of the receiver (or a reference to it) to their closure as its first parameter
+ELEMENT_ADAPTERS = ("map", "flat_map", "for_each", "filter_map", "filter", "any", "all", "find", "find_map", "position",
+                    "take_while", "skip_while", "map_while", "inspect")
+
+
+def closure_element_ranges(fn, F):
+    """{name: (lo, hi)} for the first parameter of a closure handed to an element-wise iterator adapter over a literal integer
+    range (`(0..8).map(|col| ..)`), for this closure and for the closures it is nested in (whose parameters it captures)."""
+    out = {}
+    # the closure expression is in the function it was written in, or - when that was a helper expanded by the pre-pass - in its callers
+    sites = []
+    for top in F.fns.values():
+        if top.get("kind") == "Closure" or not top.get("hir"):
+            continue
+        hits = [(n, anc) for n, anc in hir.walk(top["hir"]["body"]) if n.get("k") == "Closure"
+                and (fn["path"] == n.get("def") or fn["path"].startswith(str(n.get("def")) + "::"))]
+        if hits:
+            sites.append((top, hits))
+    per_site = []
+    for top, hits in sites:
+        sym = hir.Sym(hir.Env(top["hir"], F), F)
+        got = {}
+        for n, anc in hits:
+            par = anc[-1] if anc else None
+            if not (par and par.get("k") == "MethodCall" and par.get("name") in ELEMENT_ADAPTERS and par["args"] and par["args"][0] is n):
+                continue
+            if not str(hir.callee_of(par) or "").startswith(("std::iter::Iterator::", "core::iter::Iterator::", "core::iter::traits::iterator::Iterator::")):
+                continue
+            it = sym(par["recv"])
+            while it[0] == "call" and str(it[1]).endswith(("IntoIterator::into_iter", "Iterator::rev")):
+                it = it[2][0]
+            if not (it[0] == "struct" and str(it[1]).endswith("ops::Range")):
+                continue
+            d = dict(it[2])
+            lo, hi = hir.sym_int(d.get("start")), hir.sym_int(d.get("end"))
+            if lo is None or hi is None or not n.get("params"):
+                continue
+            p0 = n["params"][0]
+            for nm in hir.pat_names(p0.get("pat", p0)):
+                got[nm] = (lo, hi - 1)
+        per_site.append(got)
+    # a helper expanded into several callers: every copy must give a range; the hull is what holds for all of them
+    for nm in (set.intersection(*[set(g) for g in per_site]) if per_site else ()):
+        out[nm] = (min(g[nm][0] for g in per_site), max(g[nm][1] for g in per_site))
+    return out
 
 
 def w1(ctx, Fr, F):
@@ -493,6 +543,9 @@ def w1_ranges(ctx, F):
             if x.get("k") in ("copy", "move"):
                 l = x["place"]["l"]
                 nm = a.cfg.local_name(l)
+                proj = x["place"].get("p") or []
+                if proj and isinstance(proj[-1], dict) and proj[-1].get("f") and not str(proj[-1]["f"]).isdigit():
+                    nm = proj[-1]["f"]       # `acc.score += ..`: the accumulator is a named field of a carrier struct
                 if nm is None:
                     d = a.def1.get(l)
                     if d and d[0] == "rv" and d[1]["k"] == "Use" and d[1]["op"].get("k") in ("copy", "move"):
